@@ -283,6 +283,7 @@ def run_case(case):
         if a <= wide.end and wide.start <= b:  # the reads aldy parses
             frag[r["name"]].append(r)
     catpos = {p for p, _ in gene.mutations}
+    ins_only = {p for p, o in gene.mutations if o.startswith("ins")} - {p for p, o in gene.mutations if not o.startswith("ins")}
     for name, rs in frag.items():
         ph = s.phases.get(name, {})
         shown = collections.defaultdict(set)
@@ -291,7 +292,9 @@ def run_case(case):
             lab, al = refpile.phase_labels(r, gene, multi)
             for p, ls in lab.items():
                 shown[p] |= ls
-            covered |= al
+            # an insertion site (the junction after p) is covered only by a read that continues past p
+            last = refpile.ref_span(r)[1] - 1
+            covered |= {p for p in al if not (p == last and p in ins_only and lab.get(p) == {"_"})}
         for p in catpos:
             if p in ph and ph[p] not in shown.get(p, set()):
                 viol.append(V("phase-label-not-shown-by-fragment", fragment=name, pos=p, label=ph[p], shown=sorted(shown.get(p, set()))))
